@@ -11,6 +11,9 @@ META = {
     "level": "Decides: (R1) for every (token, node class) pair in any operator table passed to DepSet.parse, the renderer emits exactly that token for that class, so ||, ^^ and ?? groups re-parse; (R2) DepSet.parse rejects an unmatched ')', an operator or conditional not followed by '(', a dangling operator, an empty USE-conditional name and unclosed groups; (R3) only associative node kinds (all-of, any-of) may be flattened into a same-kind parent; a group reduced to one element is replaced by it only where op(x) == x (not for at-most-one-of); groups emptied by conditionals disappear; (R4) a USE conditional whose condition holds contributes its payload as ONE all-of group to the enclosing node, otherwise nothing. Does NOT decide semantic equivalence of evaluation for arbitrary strings.",
     "note": "restriction.match of the condition is opaque; associativity facts: and/or associative, exactly-one-of and at-most-one-of not",
 }
+META["technique"] += "; " + 'blank-notion agreement (str.split() tokeniser vs literal-space tests); no de-duplication in evaluation'
+META["level"] += " Added after the second round of independent changes: " + "(R5) DepSet.parse asks no token-boundary question with a literal ' ' of a text it tokenises on any whitespace; evaluate_conditionals never de-duplicates the evaluated members (multiplicity decides ^^ and ??)."
+META["technique"] += "; " + 'generic pack G on the anchored files (optional-flag shift, closures outliving a loop iteration, single-pass iterables consumed twice, %-templates built from data, in-place writes to class-level / memoised objects, generators mutating what they yielded, memo keys that are projections)'
 CMOD = "pkgcore.ebuild.conditionals"
 BMOD = "pkgcore.restrictions.boolean"
 ASSOCIATIVE = {"AndRestriction", "OrRestriction"}
